@@ -28,7 +28,9 @@ ASSUMPTIONS = ["A6: signature verification succeeds iff the verifier hashes the 
 EXHAUSTIVE_PARTS = ["dkimbody: all octet strings over {a, SP, HTAB, CR, LF} up to length 5 (quick) / 7 (thorough), with and without a final CRLF, both canonicalizations"]
 
 NAMES = ["From", "To", "Subject", "Date", "Content-Transfer-Encoding", "X-Custom", "Reply-To", "Cc", "Message-ID", "Content-Type", "MIME-Version",
-         "X-Absent", "X-Long", "List-Unsubscribe"]
+         "X-Absent", "X-Long", "List-Unsubscribe",
+         # every field name lettre has a typed header for (round 7: C13/m20 lower-cased names through a table with one wrong row)
+         "In-Reply-To", "References", "Sender", "Comments", "Keywords", "User-Agent", "Content-ID", "Content-Location", "Content-Disposition", "Bcc"]
 SELECTORS = ["sel", "dkim2024", "s", "a-rather-long-selector-name-2024-09", "x" * 40]
 DOMAINS = ["example.org", "sub.mail.example.co.uk", "d.io", "a-domain-name-that-is-fairly-long-for-folding.example", "y" * 30 + ".example"]
 WORDS = ["hello", "world", "a", "I", "café", "你好", "x" * 30, "x" * 80, "=?utf-8?b?eA==?=", "semi;colon", "b=;", "bh=x", "co:lon", "dash-", "1234567890" * 3,
@@ -92,7 +94,8 @@ def dkim_case(rng, tier):
     if rng.random() < 0.3:
         names = ["From", "Subject", "To", "Date"][: rng.randint(1, 4)] + names
     hdrs = []
-    for n in rng.sample(["Subject", "X-Custom", "Reply-To", "Cc", "X-Long", "List-Unsubscribe", "Message-ID"], rng.choice([0, 1, 2, 3])):
+    for n in rng.sample(["Subject", "X-Custom", "Reply-To", "Cc", "X-Long", "List-Unsubscribe", "Message-ID", "In-Reply-To", "References", "Comments", "Keywords",
+                         "User-Agent", "Content-ID", "Content-Location", "Sender"], rng.choice([0, 1, 2, 3, 4])):
         hdrs += [n if rng.random() < 0.8 else anycase(rng, n), value(rng, tier)]
     if rng.random() < 0.15:
         # internationalised addresses (RFC 6531): the field carries UTF-8 octets that are not encoded
